@@ -57,6 +57,15 @@ CHECKS = {
         note='Trusts the reference interpreter for non-limit failures; a >520-byte push inside the script text may be refused at load time (C01 allows that). '
              'Two genuine defects found here were repaired by fix: commits (see known_findings.json).',
         design='5/C10'),
+    'C13': dict(
+        technique='round-trip and differential property-based testing (Hypothesis) against an independent transaction codec, with exhaustive truncation of each generated encoding',
+        text='Transactions built by the reference encoder (0..253 inputs/outputs, script lengths across 252/253/65535/65536, witness present/absent/mixed, empty witness items, extreme '
+             'versions/values) are decoded through Instance::parse_transaction: every field, the byte-identical re-serialisation, txid and wtxid (OpenSSL double-SHA256) are compared; hex with '
+             'whitespace must decode identically; every strict prefix must be rejected; eight kinds of structural corruption must be accepted or rejected exactly as the reference does; amount '
+             'prefixes must convert to exact satoshis. A CLI sample checks the displayed txid and the error path of --tx.',
+        note='Trailing bytes after a complete encoding are not asserted. Boundary amount forms (exponent, sign) only need to be exact when accepted. Zero-input transactions are decoded here but '
+             'not used as session transactions (crash class handled under C15).',
+        design='5/C13'),
     'C16': dict(
         technique='differential property-based testing (Hypothesis) of exec against the reference interpreter started from the observed pre-state',
         text='Generated (session, k steps, token list) cases: the harness performs the k steps, then Instance::eval on the tokens, then continues to the end. The reference interpreter '
